@@ -251,7 +251,7 @@ Proof.
   intros now s b v H. destruct b as [z|w| | | |d]; cbn in *.
   - inversion H; subst. exists (BTs z). repeat split; intros; congruence.
   - destruct (lookup_var w s) as [[n|n|n]|]; cbn in *; try discriminate; inversion H; subst;
-      exists (BTs n); cbn; repeat split; intros; congruence.
+      exists (BTs n); cbn; repeat split; intros; try congruence.
   - inversion H; subst. exists BNegInf. repeat split; intros; congruence.
   - inversion H; subst. exists BPosInf. repeat split; intros; congruence.
   - inversion H; subst. exists (BTs now). repeat split; intros; congruence.
@@ -267,9 +267,7 @@ Proof.
   destruct (resolve_bound_value _ _ _ _ Hs) as [b1 (R1 & T1 & P1 & N1)].
   destruct (resolve_bound_value _ _ _ _ He) as [b2 (R2 & T2 & P2 & N2)].
   unfold resolve_head_time. rewrite R1, R2. unfold to_iv, new_pinterval, norm_iv. cbn [fst snd].
-  do 3 f_equal.
-  - destruct b1; cbn in *; subst; try reflexivity.
-  - destruct b2; cbn in *; subst; try reflexivity.
+  subst bs be. destruct b1, b2; reflexivity.
 Qed.
 
 (* a head annotation that cannot be resolved is an error, never a fact *)
